@@ -32,9 +32,9 @@ mod cache;
 pub(crate) mod config;
 pub mod dnspkt;
 mod outquery;
-#[cfg(fuzzing)]
+#[cfg(any(fuzzing, erbium_verif))]
 pub mod parse;
-#[cfg(not(fuzzing))]
+#[cfg(not(any(fuzzing, erbium_verif)))]
 mod parse;
 mod router;
 
